@@ -372,8 +372,14 @@ var exception_throw(var obj, const char* fmt, var args) {
 
   struct Exception* e = current(Exception);
   
+  /* The message is formatted first and into a String of its own: showing
+  ** an argument may itself raise and handle an exception in this thread,
+  ** which would overwrite the object and the message set here. */
+  var msg = new_raw(String);
+  print_to_with(msg, 0, fmt, args);
+  assign(e->msg, msg);
+  del_raw(msg);
   e->obj = obj;
-  print_to_with(e->msg, 0, fmt, args);
   CELLO_VERIF_POINT(CELLO_VP_EXC_THROW, e);
   
   if (Exception_Len(e) >= 1) {
